@@ -8,6 +8,12 @@ NOT_APPLICABLE = {f"C{i:02d}": _PENDING for i in range(1, 21)}
 TRUST = "Trusted: rustc/std float semantics, the harness' own oracle code, the python driver. Held = held on the executions observed (exhaustive only for the sub-domains named in evidence)."
 
 CLAIMS = {
+    "C10": {
+        "text": "Variant-agreement and algebra monitor over real calls, 19 colour types x f32/f64: Mix/MixAssign (ends at factor 0/1, factors outside [0,1] bit-identical to the nearest end, component-wise between the inputs and equal to the lerp, hue on the shorter arc by the factor's fraction); Lighten/Darken and Saturate/Desaturate in relative and fixed form (value equals the documented formula, in range, other components bit-identical, factor 1 reaches the limit, monotone over a 33-step ladder, darken(x) == lighten(-x)); ShiftHue/WithHue/SetHue/GetHue and the five colour-scheme helpers as documented hue shifts; Add/Sub/Mul/Div with colours and scalars against plain arithmetic in the same float type. For every operator the assigning form, the slice form (lengths 0, 1, 7) and the Alpha-wrapped form are compared bit for bit with the by-value form on the bare colour. The clamp variants are covered by the C03 monitor (by-value vs assigning vs contract).",
+        "design_ref": "DESIGN.md section 3, C10",
+        "note": TRUST + " Inputs are seeded in-range colours with raw hues in [-720, 720] and factor sets {-2,-1,-0.5,-0,0,1e-9,0.25,1/3,0.5,1-1e-9,1,1+1e-9,2} plus seeded factors.",
+        "technique": "runtime monitoring: metamorphic variant-agreement relations (bit-exact) between real operator calls + a small model of the documented semantics",
+    },
     "C09": {
         "text": "Reference-formula monitor: CIEDE2000 of Lab and Lch (f32/f64, both trait generations) is compared with an independent implementation of the Sharma/Wu/Dalal formulation (self-tested on their 34 pairs) on 60000 (thorough 6e6) pairs from structured families - hues straddling 0/360 with h1'+h2' on both sides of 360, |dh'| on both sides of 180 (the excluded band at exactly 180 is skipped and counted), zero chromas, C-bar near 25, L-bar near 50, mean hue near 275, nearly identical saturated colours - plus seeded pairs, to 1e-9 in f64; symmetry, identity, non-negativity, finiteness and polar == rectangular are checked on the same pairs. Delta E, improved Delta E, HyAB and Euclidean distance of Lab, Lch, Luv, Oklab, Xyz, Rgb, Cam16UcsJab and Cam16UcsJmh are compared with their closed forms, and the WCAG contrast of Srgb/LinSrgb/Luma with (L1+0.05)/(L2+0.05), its range, its symmetry (bit-exact) and the five threshold predicates on pairs aimed at the thresholds.",
         "design_ref": "DESIGN.md section 3, C09",
